@@ -180,8 +180,9 @@ def run(ctx, n_override=None):
             tag = 'c04'
         elif r < 0.8:
             # time-clock files (the C20 generator), alone or followed by ordinary transactions
-            case = c20.gen_case(rng)
-            text = c20.render(case)[0]
+            case = c20.dress(rng, c20.gen_case(rng), plain=True)     # one file, no directives around the clock lines
+            files, main_name = c20.render(case)
+            text = files[main_name]
             if rng.random() < 0.4:
                 text += '\n' + X.render_journal(c01.gen_journal(rng))
             tag = 'c20'
